@@ -35,8 +35,11 @@ def run(ctx):
     R.rule("C18-R1", "tile size / increment embedded only parenthesised or tighter-binding", floor=10)
     R.rule("C18-R2", "inner loop bound offset = block loop step", floor=3)
     R.rule("C18-R3", "bounds check applied by default with the original operator/bound/iterator", floor=4)
+    R.rule("C18-R5", "the expression DSL the tile builders are written in builds what its operators say (a + b -> `+` node, parens -> wrapInParentheses)", floor=15)
     R.rule("C18-R4", "inner loop comparison is strict whenever the original comparison is inclusive, for both operand orders", floor=2)
 
+    from vlib.exprterm import dsl_soundness
+    dsl_soundness(prog, lambda ok, fn, key, site, detail: R.ob("C18-R5", ok, fn, key, site, detail))
     for name in ("setupBlockForStatement", "setupInnerForStatement", "setupCheckStatement"):
         f = prog.fn(T + name)
 
